@@ -22,14 +22,21 @@ RULE = ('for each call form: all tables of n rows (two fields) x every subset of
         'the user function raise (rowmapmany: every vector over {yield 0/1/2 rows, yield 0/1/2 rows then raise}) '
         '(lazy-row forms: rowmap mappers returning a generator expression / map object / iterator object whose '
         'materialisation raises at each cell position, rowmapmany yielding such rows, failing at cell position '
-        '0/1/2 after 0/1/2 good rows) x where-selection subsets (where forms) x policy in {False, True, "inline"} x mode in {argument; '
+        '0/1/2 after 0/1/2 good rows; short-row forms: every vector of row states {a ok/bad} x {b ok/bad/absent} '
+        'or empty row, with mappings / converters / mappers that read the absent field and choke on the None it '
+        'reads as, errorvalue additionally "77") x where-selection subsets (where forms) x policy in {False, True, "inline"} x mode in {argument; '
         'argument with config set to a different policy; argument omitted with config set; failonerror=None with '
         'config set; config set only while the view is constructed} x errorvalue in {omitted, None, "ERR"} '
         '(cell-level forms).  The pass is driven item by item: rows delivered before an exception, the '
         'exception (the user exception must be the one raised / delivered, builtin converter exceptions are '
         'matched by presence only) and every delivered cell are compared.  A case is non-trivial when at least '
         'one cell/row fails and at least one does not.  '
-        'Excluded: a raising `where` predicate, a mapper returning a non-row, policy values other than the three '
+        'Exception-type space: every form whose user function raises x the TYPE it raises (IndexError, KeyError, '
+        'LookupError, TypeError, ValueError, AttributeError, StopIteration, RuntimeError, ZeroDivisionError besides '
+        'the custom class) x all inputs of <= 2 rows (3 thorough) x policy x {argument, config} x errorvalue '
+        '{omitted, "ERR"}: the expected observation does not depend on the type.  '
+        'Excluded: StopIteration raised inside map() / a hand-written iterator (the iterator protocol defines it as '
+        'the end of the row, not a failure); a raising `where` predicate, a mapper returning a non-row, policy values other than the three '
         'documented ones (None / other truthy values), exceptions not derived from Exception; under True the '
         'rows a generator produced for the failing input row before failing may or may not be delivered.')
 ASSUMPTIONS = ['tables have <= 4 rows (5 thorough) and two fields; user functions fail as a function of the cell value',
@@ -59,7 +66,9 @@ def _nmax(tier):
 
 def bounds(tier, seed):
     return {'max_rows': _nmax(tier), 'max_rows_rowmapmany': 5 if tier == 'thorough' else 4,
-            'forms': len(BUILD), 'policies': 3, 'modes': list(MODES), 'errorvalues': ['<omitted>', None, 'ERR']}
+            'forms': len(BUILD), 'policies': 3, 'user_exception_types': list(ref.KIND_ORDER),
+            'exception_type_space_max_rows': 3 if tier == 'thorough' else 2,
+            'short_row_forms_max_rows': 4 if tier == 'thorough' else 3, 'modes': list(MODES), 'errorvalues': ['<omitted>', None, 'ERR']}
 
 
 # ------------------------------------------------------------------------------------------------
@@ -112,6 +121,18 @@ BUILD = {
     'fieldmap()[p] = (a, f); [q] = b': _suffix_fieldmap,
     'rowmap(f)': lambda t, kw, sel: etl.rowmap(t, ref.rowmapper, header=('x', 'y', 'z'), **kw),
     'rowmap(natural)': lambda t, kw, sel: etl.rowmap(t, ref.rowmapper_natural, header=('x', 'y'), **kw),
+    'fieldmap{p: (a, f), q: (b, f), r: b} on short rows': lambda t, kw, sel: etl.fieldmap(
+        t, _od(('p', ('a', ref.convs)), ('q', ('b', ref.convs)), ('r', 'b')), **kw),
+    'fieldmap{p: recfun(b), q: recfun(a)} on short rows': lambda t, kw, sel: etl.fieldmap(
+        t, _od(('p', ref.recfun_sb), ('q', ref.recfun_sa)), **kw),
+    'fieldmap{p: "int({b})", q: "{a}"} on short rows': lambda t, kw, sel: etl.fieldmap(
+        t, _od(('p', 'int({b})'), ('q', '{a}')), **kw),
+    'convert((a, b), f) on short rows': lambda t, kw, sel: etl.convert(t, ('a', 'b'), ref.convs, **kw),
+    'convert(b, f) on short rows': lambda t, kw, sel: etl.convert(t, 'b', ref.convs, **kw),
+    'convert((a, b), f reading row[b], pass_row) on short rows': lambda t, kw, sel: etl.convert(
+        t, ('a', 'b'), ref.convs_row, pass_row=True, **kw),
+    'rowmap(f reading both fields) on short rows': lambda t, kw, sel: etl.rowmap(
+        t, ref.rowmapper_s, header=('x', 'y'), **kw),
     'rowmap(f -> generator expression)': lambda t, kw, sel: etl.rowmap(
         t, ref.lazy_genexpr_mapper, header=('x', 'y'), **kw),
     'rowmap(f -> map object)': lambda t, kw, sel: etl.rowmap(t, ref.lazy_map_mapper, header=('x', 'y'), **kw),
@@ -147,8 +168,9 @@ def _payload(e):
     seen = 0
     x = e
     while x is not None and seen < 5:
-        if isinstance(x, ref.Boom):
-            return x.args[0] if x.args else None
+        mine, v = ref.user_payload(x)
+        if mine:
+            return v
         x = x.__cause__ or x.__context__
         seen += 1
     return ref.ANY
@@ -219,8 +241,12 @@ def check_case(case):
     form, tbl, policy, mode = case['form'], case['table'], case['policy'], case['mode']
     ev = case.get('errorvalue', ref.OMIT)
     selected = case.get('selected')
-    exp = ref.expected(form, tbl, policy, ev, set(selected) if selected is not None else None)
-    delivered, raised, stage = observe(form, tbl, policy, mode, ev, selected)
+    ref.set_kind(case.get('exc', 'Boom'))
+    try:
+        exp = ref.expected(form, tbl, policy, ev, set(selected) if selected is not None else None)
+        delivered, raised, stage = observe(form, tbl, policy, mode, ev, selected)
+    finally:
+        ref.set_kind('Boom')
     if ref.matches(exp, delivered, raised):
         return None, exp, delivered, raised
     # failure signature (never contains input values)
@@ -241,7 +267,8 @@ def check_case(case):
         sig = 'wrong cell or row content under %r' % (policy,)
     observed = {'delivered': delivered, 'raised': raised, 'at': stage}
     expected = {'delivered': exp['rows'], 'raised': exp['raises'], 'optional_tail': exp['optional']}
-    msg = '%s, policy %r (%s), errorvalue %s: %s' % (form, policy, mode,
+    msg = '%s%s, policy %r (%s), errorvalue %s: %s' % (
+        form, '' if case.get('exc', 'Boom') == 'Boom' else ' [user function raises %s]' % case['exc'], policy, mode,
                                                     '<omitted>' if ev == ref.OMIT else repr(ev), sig)
     return (sig, expected, observed, msg), exp, delivered, raised
 
@@ -283,6 +310,12 @@ def tables_of(form, n):
             nf = sum(1 for b in vec if b[0] == 'fail')
             yield ref.many_table(_R, vec), None, nf, n - nf
         return
+    if style == 'ragged':
+        vecs = sorted(itertools.product(ref.RAGGED_STATES, repeat=n),
+                      key=lambda v: sum(1 for st in v if st == 'empty' or 'absent' in st or 'bad' in st))
+        for vec in vecs:
+            yield ref.ragged_table(_R, vec), None, 0, 0
+        return
     cells = [(i, f) for i in range(n) for f in (0, 1)]
     for bad in _subsets(cells):
         tbl = ref.table(style, _R, n, set(bad))
@@ -305,6 +338,8 @@ def items(tier, seed):
                 nmax -= 1           # 12 behaviours per row
         elif spec.get('where'):
             nmax = _nmax(tier) - 1
+        elif spec['style'] == 'ragged':
+            nmax = 4 if tier == 'thorough' else 3      # 7 row states
         else:
             nmax = _nmax(tier)
         for n in range(0, nmax + 1):
@@ -314,17 +349,71 @@ def items(tier, seed):
             else:
                 out.append((form, n, MODES))
     out.sort(key=lambda it: it[1])      # simplest first (stable: keeps the seed's rotation of the forms)
+    # exception-type space: every other exception type x every form whose user function raises it
+    kinds = []
+    kmax = 3 if tier == 'thorough' else 2
+    for n in range(0, kmax + 1):
+        for form in spaces.rotate(sorted(BUILD), seed):
+            if form not in KIND_FORMS:
+                continue
+            if ref.FORMS[form]['style'] == 'many-lazy' and n > 2:
+                continue
+            for kind in ref.KIND_ORDER[1:]:
+                if kind == 'StopIteration' and form in ref.STOPITERATION_IS_EXHAUSTION:
+                    continue
+                kinds.append((form, n, KIND_MODES, kind))
+    return out + kinds
+
+
+KIND_MODES = ('arg', 'config')
+KIND_ERRORVALUES = (ref.OMIT, 'ERR')
+RAGGED_ERRORVALUES = (ref.OMIT, None, 'ERR', '77')       # '77': a value builtin converters accept as well
+
+
+def _kind_forms():
+    """Forms whose user function raises the selectable exception type (measured on the model: an all-failing
+    input yields a payload other than '*')."""
+    out = set()
+    reps = spaces.reps(0)
+    for form, spec in ref.FORMS.items():
+        st = spec['style']
+        if st == 'ragged':
+            tbl = ref.ragged_table(reps, [('bad', 'bad')])
+        elif st in ('many', 'many-call'):
+            tbl = ref.many_table(reps, [('fail', 0)])
+        elif st == 'many-lazy':
+            tbl = ref.many_table(reps, [('fail', (0, 0))])
+        else:
+            tbl = ref.table(st, reps, 1, {(0, 0), (0, 1)})
+        e = ref.expected(form, tbl, True, ref.OMIT, {0})
+        if e['raises'] is not None and e['raises'] != ref.ANY:
+            out.add(form)
     return out
 
 
+KIND_FORMS = _kind_forms()
+
+
 def run_item(item, acc):
-    form, n, modes = item
-    evs = ERRORVALUES if ref.has_errorvalue(form) else (ref.OMIT,)
+    form, n, modes = item[:3]
+    kind = item[3] if len(item) > 3 else 'Boom'
+    if not ref.has_errorvalue(form):
+        evs = (ref.OMIT,)
+    elif kind != 'Boom':
+        evs = KIND_ERRORVALUES
+    elif ref.FORMS[form]['style'] == 'ragged':
+        evs = RAGGED_ERRORVALUES
+    else:
+        evs = ERRORVALUES
     sampled = False
     for tbl, selected, nfail, nok in tables_of(form, n):
         acc.states += 1
         # non-trivial by RULE, measured on the model: something fails and something does not
-        e2 = ref.expected(form, tbl, 'inline', ref.OMIT, set(selected) if selected is not None else None)
+        ref.set_kind(kind)
+        try:
+            e2 = ref.expected(form, tbl, 'inline', ref.OMIT, set(selected) if selected is not None else None)
+        finally:
+            ref.set_kind('Boom')
         flat = [c for r in e2['rows'][1:] for c in r]
         nx = sum(1 for c in flat if isinstance(c, tuple) and c[:1] == (ref.EXC,))
         nontrivial = 0 < nx < len(flat)
@@ -333,6 +422,8 @@ def run_item(item, acc):
             for policy in POLICIES:
                 for ev in evs:
                     case = {'form': form, 'table': tbl, 'policy': policy, 'mode': mode}
+                    if kind != 'Boom':
+                        case['exc'] = kind
                     if ev is not ref.OMIT:
                         case['errorvalue'] = ev
                     if selected is not None:
@@ -345,6 +436,8 @@ def run_item(item, acc):
                         if nontrivial:
                             acc.nontrivial += 1
                             acc.counters['nontrivial:' + form] += 1
+                            if kind != 'Boom':
+                                acc.counters['nontrivial with user exception type:' + kind] += 1
                     acc.counters['evals:' + form] += 1
                     acc.outcome((policy, len(delivered), raised is not None,
                                  sum(1 for r in delivered for c in r if isinstance(c, tuple) and c[:1] == (ref.EXC,))))
@@ -360,4 +453,6 @@ def run_item(item, acc):
 
 def vacuity(cov, tier):
     c = cov['per_case_counters']
-    return ['no non-trivial case for %s' % f for f in sorted(BUILD) if not c.get('nontrivial:' + f)]
+    return ['no non-trivial case for %s' % f for f in sorted(BUILD) if not c.get('nontrivial:' + f)] + \
+           ['no non-trivial case with user functions raising %s' % k for k in ref.KIND_ORDER[1:]
+            if not c.get('nontrivial with user exception type:' + k)]
